@@ -9,6 +9,7 @@
 #include <chrono>
 #include <sys/stat.h>
 #include <fcntl.h>
+#include <dirent.h>
 
 using namespace em;
 
@@ -40,6 +41,7 @@ struct CaseResult {
   unsigned long builds = 0, executed = 0, upToDate = 0, provides = 0, priors = 0, restarts = 0, cancelledBuilds = 0, cycleBuilds = 0, dbChecks = 0, interrupted = 0;
   unsigned long hookLoopTop = 0, hookBeforeWait = 0, hookCancelDrain = 0, deliveredAtHook = 0, syncCompletions = 0;
   bool nontrivial = false; uint64_t shapeHash = 0; std::string deliveryOrder;
+  unsigned long threadCensus = 0;
   std::string programDesc, historyDesc;
 };
 
@@ -279,6 +281,8 @@ static CaseResult runCase(const CaseSpec& spec, bool thorough) {
       cx.cancelAtStep = (spec.cancelBuild == buildIdx && sm != 3) ? spec.cancelStep : op.cancelStep;
       gHookCtx = &cx; gBuildActive = true;
       size_t execBefore = cx.nExecuted, utdBefore = cx.nUpToDate;
+      size_t threadsBefore = 0;   // runtime threads (sanitizer background thread, watchdog, harness pool) exist before the build
+      if (DIR* d0 = opendir("/proc/self/task")) { while (auto* e = readdir(d0)) if (e->d_name[0] != '.') ++threadsBefore; closedir(d0); }
       cx.beginBuild(op.key);
       std::thread canceller;
       if (sm == 3 && spec.cancelBuild == buildIdx) {   // foreign-thread cancellation at a random moment
@@ -288,6 +292,18 @@ static CaseResult runCase(const CaseSpec& spec, bool thorough) {
       }
       std::string result = front->build(prog.keys[op.key].name);
       if (canceller.joinable()) canceller.join();
+      if (sm == 3 && cx.monitorsOn) {
+        // thread census at quiescence: main + watchdog + the harness pool; the engine's execution queue must be gone with all its lanes
+        size_t expect = threadsBefore, seen = 0;
+        for (int tries = 0; tries < 50; ++tries) {
+          seen = 0;
+          if (DIR* d = opendir("/proc/self/task")) { while (auto* e = readdir(d)) if (e->d_name[0] != '.') ++seen; closedir(d); }
+          if (seen <= expect) break;
+          usleep(2000);
+        }
+        res.threadCensus++;
+        if (seen > expect) cx.viol("M-cancel: threads are still running after build() returned (execution queue lanes or workers left behind)", "threads=" + std::to_string(seen) + " expected<=" + std::to_string(expect));
+      }
       cx.endBuild(result);
       gBuildActive = false; gHookCtx = nullptr;
       ++res.builds; res.stepsPerBuild.push_back(cx.step);
